@@ -876,8 +876,14 @@ func verifC12ConcRound(e *verifC12Env, round uint64) {
 			refs[g] = resolveRead("phase A")
 		}(g)
 	}
+	mc0 := e.metaCalls.Load()
 	close(start)
 	wg.Wait()
+	if n := e.metaCalls.Load() - mc0; n != 1 {
+		// "share a single resolved instance": the first resolver resolves, the others wait for it
+		// on the per-name lock and take its layer from the cache; nobody builds a second layer
+		e.out.Fail("two-instances", fmt.Sprintf("concurrent phase A: %d layer instances were built for one name by concurrent resolvers", n))
+	}
 	for g := 1; g < G; g++ {
 		if refs[g] != nil && refs[0] != nil && refs[g].layer != refs[0].layer {
 			e.out.Fail("two-instances", "concurrent phase A: concurrent resolvers of one name got different instances")
